@@ -19,6 +19,10 @@ EXTENDS BigNat
 UBits == 30
 \* 2^-20 at scale U
 Margin == BI(FALSE, BNPow2(UBits - 20))
+\* 2^-26 (1.5e-8) for a circle against a line, where the library's own measure is the plain distance |d - r| against
+\* 1e-9 (for two circles it is the distance to the radical line, which is finer than the gap between the circles by the
+\* factor small radius / centre distance: the wide band stays there)
+MarginCL == BI(FALSE, BNPow2(UBits - 26))
 \* 1e-7 at scale U is 107.4; one more unit covers the quantisation of the logged points
 Tol == BIFromInt(109)
 
@@ -59,8 +63,8 @@ CLKind(c, r, a, b) ==
         X2 == Sq(Cross(Vec(a, c), ab))
         L2 == Len2(ab)
     IN IF BIEq(X2, BIMul(Sq(r), L2)) THEN "Touch"
-       ELSE IF Le(BIMul(Sq(BIAdd(r, Margin)), L2), X2) THEN "None"
-       ELSE IF Le(Margin, r) /\ Le(X2, BIMul(Sq(BISub(r, Margin)), L2)) THEN "Intersect"
+       ELSE IF Le(BIMul(Sq(BIAdd(r, MarginCL)), L2), X2) THEN "None"
+       ELSE IF Le(MarginCL, r) /\ Le(X2, BIMul(Sq(BISub(r, MarginCL)), L2)) THEN "Intersect"
        ELSE "unjudged"
 
 \* two lines: parallel (also identical) -> no point; clearly crossing -> a point
